@@ -406,7 +406,18 @@ func runC18Direct(c hx.Case) any {
 	}
 	res["enc"] = json.RawMessage(enc)
 	schemas := openapi3.Schemas{}
-	ref, err := openapi3gen.NewSchemaRefForValue(val.Interface(), schemas, opts...)
+	var ref *openapi3.SchemaRef
+	if pre := jlist(c["pre"]); len(pre) > 0 {
+		// reuse: one Generator, GenerateSchemaRef for every earlier type (results and errors ignored: only the state
+		// that is kept matters), then the export loop once, after the last call
+		g := openapi3gen.NewGenerator(opts...)
+		for _, p := range pre {
+			_, _ = g.GenerateSchemaRef(c18Build(asObj(p)))
+		}
+		ref, err = g.NewSchemaRefForValue(val.Interface(), schemas)
+	} else {
+		ref, err = openapi3gen.NewSchemaRefForValue(val.Interface(), schemas, opts...)
+	}
 	if err != nil || ref == nil {
 		res["err"] = fmt.Sprint("generate: ", err)
 		switch {
@@ -1266,6 +1277,8 @@ func genC18(ctx *hx.Ctx, emit func(hx.Case)) {
 	}
 	// 3. declared zoo
 	c18ZooCases(ctx, emit)
+	// 3b. reuse of one generator
+	c18ReuseCases(ctx, emit)
 	// 4. the self-recursive container types
 	for _, t := range []obj{{"k": "recs", "m": false}, {"k": "recs", "m": true}, st(fld("A", "a", obj{"k": "recs", "m": false}))} {
 		decls := map[string]any{}
@@ -1297,7 +1310,62 @@ func genC18(ctx *hx.Ctx, emit func(hx.Case)) {
 // ------------------------------------------------------------------ shrinking
 
 func c18Sub(c hx.Case, t, v obj) hx.Case {
-	return c18CaseO(t, v, jbool(c, "all"), asObj(c["opts"]))
+	return c18CaseP(t, v, jbool(c, "all"), asObj(c["opts"]), jlist(c["pre"]))
+}
+
+// c18CaseP: a case in which the types `pre` are generated first, in this order, on the same Generator.
+func c18CaseP(t, v obj, all bool, o obj, pre []any) hx.Case {
+	c := c18CaseO(t, v, all, o)
+	if len(pre) == 0 {
+		return c
+	}
+	decls := map[string]any{}
+	c18AddDecls(t, decls)
+	for _, p := range pre {
+		c18AddDecls(asObj(p), decls)
+	}
+	c["decls"] = c18DeclList(decls)
+	c["pre"] = pre
+	return c
+}
+
+// c18ReuseCases: the history dimension. For every declared struct of the zoo and every declared struct X it refers to
+// (itself included): X, *X, []X, []*X, map[string]X and X then *X are generated first on the same generator, under the
+// option sets that cannot fail (no ThrowErrorOnCycle, no customizer).
+func c18ReuseCases(ctx *hx.Ctx, emit func(hx.Case)) {
+	r := ctx.Rng
+	optSets := []obj{nil, {"export": true}, {"export": true, "top": true}, {"tng": obj{"pfx": "X_", "tbl": []any{}}},
+		{"export": true, "top": true, "tng": obj{"pfx": "X_", "tbl": []any{}}}}
+	for _, n := range c18ZooStructs {
+		t := named(n)
+		decls := map[string]any{}
+		c18AddDecls(t, decls)
+		var xs []string
+		for x := range decls {
+			xs = append(xs, x)
+		}
+		sort.Strings(xs)
+		if len(xs) > 3 && !ctx.Thorough() {
+			xs = xs[:3]
+		}
+		for _, x := range xs {
+			X := named(x)
+			pres := [][]any{{X}, {ptr(X)}, {sl(X)}, {sl(ptr(X))}, {mp(X)}, {X, ptr(X)}, {st(fld("P", "p", ptr(X)))}}
+			for pi, pre := range pres {
+				for oi, o := range optSets {
+					if !ctx.Thorough() && (pi+oi)%2 == 1 && oi > 0 {
+						continue
+					}
+					oo := obj{}
+					for k, v := range o {
+						oo[k] = v
+					}
+					v := c18Value(r, t, decls, 1+(pi+oi)%3)
+					emit(c18CaseP(t, v, false, oo, pre))
+				}
+			}
+		}
+	}
 }
 
 func shrinkC18(c hx.Case) []hx.Case {
@@ -1305,6 +1373,11 @@ func shrinkC18(c hx.Case) []hx.Case {
 	t, v := asObj(c["type"]), asObj(c["value"])
 	if t == nil || v == nil {
 		return nil
+	}
+	if pre := jlist(c["pre"]); len(pre) > 0 { // a shorter history
+		for _, p := range dropEach(pre) {
+			out = append(out, c18CaseP(t, v, jbool(c, "all"), asObj(c["opts"]), p))
+		}
 	}
 	decls := map[string]any{}
 	for _, d := range jlist(c["decls"]) {
